@@ -1,6 +1,7 @@
 """Replay of Sweep.tla behaviours into xyzpy's sweep entry points (C01, C02, C03)."""
 import itertools
 import math
+import os
 import random as _random
 
 import numpy as np
@@ -807,3 +808,112 @@ def replay_saved(rep, saved):
         print("drift:", d)
     if prob:
         rep.add_violation(saved, prob, key=case_key(saved["case"], saved["variant"]))
+
+
+# -- trace validation (code -> spec) with real nondeterminism ------------------------------------
+
+def _loky_fn(logpath, names, **kw):
+    """Top-level (picklable) swept function for process pools: logs its call with O_APPEND."""
+    import os as _os
+    import time as _time
+    import random as _rnd
+    _time.sleep(_rnd.random() * 0.003)
+    line = ",".join(str(kw[nm]) for nm in names) + "\n"
+    fd = _os.open(logpath, _os.O_WRONLY | _os.O_APPEND | _os.O_CREAT)
+    try:
+        _os.write(fd, line.encode())
+    finally:
+        _os.close(fd)
+    return float(sum(kw[nm] * (100 ** j) for j, nm in enumerate(names)))
+
+
+def record_real_runs(seed, count):
+    """Run the real combo_runner with real shuffles / real pools; return trace records."""
+    import concurrent.futures as cf
+    import functools
+    import multiprocessing.pool as mpp
+    import tempfile
+    import threading
+    import time
+    xyz = common.use_repo()
+    from xyzpy.gen import combo_runner as cr
+    rnd = _random.Random(seed)
+    shapes = [[2, 2], [3], [4], [2, 3], [1, 3], [2, 1, 2]]
+    traces = []
+    kinds = ["seq_shuffle", "threadpool", "mp_threadpool", "seq_shuffle", "threadpool", "loky"]
+    for t in range(count):
+        grid = shapes[t % len(shapes)]
+        kind = kinds[t % len(kinds)]
+        n = math.prod(grid)
+        if kind in ("threadpool", "mp_threadpool", "loky") and n > 4:
+            grid = [2, 2]
+            n = 4
+        names = GRID_NAMES[:len(grid)]
+        combos = {nm: list(range(1, g + 1)) for nm, g in zip(names, grid)}
+        locs = list(itertools.product(*[range(1, g + 1) for g in grid]))
+        tok = {float(sum(v * (100 ** j) for j, v in enumerate(loc))): i + 1 for i, loc in enumerate(locs)}
+        shuffle = False
+        flat = (t % 4 == 3)
+        calls = []
+        lock = threading.Lock()
+
+        def fn(**kw):
+            time.sleep(rnd.random() * 0.002)
+            with lock:
+                calls.append(tok[float(sum(kw[nm] * (100 ** j) for j, nm in enumerate(names)))])
+            return float(sum(kw[nm] * (100 ** j) for j, nm in enumerate(names)))
+
+        opts = dict(verbosity=0, flat=flat)
+        pool = None
+        if kind == "seq_shuffle":
+            shuffle = rnd.choice([True, 1, 7, 12345])
+            res = cr.combo_runner(fn, combos, shuffle=shuffle, **opts)
+        elif kind == "threadpool":
+            shuffle = rnd.choice([False, 3])
+            with cf.ThreadPoolExecutor(3) as pool:
+                res = cr.combo_runner(fn, combos, shuffle=shuffle, executor=pool, **opts)
+        elif kind == "mp_threadpool":
+            pool = mpp.ThreadPool(3)
+            try:
+                res = cr.combo_runner(fn, combos, executor=pool, **opts)
+            finally:
+                pool.close()
+                pool.join()
+        else:
+            d = tempfile.mkdtemp(prefix="vx-loky-", dir=common.scratch("loky"))
+            logp = os.path.join(d, "calls.log")
+            pf = functools.partial(_loky_fn, logp, tuple(names))
+            res = cr.combo_runner(pf, combos, num_workers=2, **opts)
+            with open(logp) as fh:
+                for line in fh:
+                    vals = [int(x) for x in line.strip().split(",")]
+                    calls.append(tok[float(sum(v * (100 ** j) for j, v in enumerate(vals)))])
+        if flat:
+            out = [tok.get(float(x), -1) for x in res]
+        else:
+            leaves, prob = flatten_nested(res, grid)
+            out = [tok.get(float(x), -1) for x in leaves] if not prob else [-1]
+        cfg = mk(grid, shuffle=bool(shuffle), pool=(kind != "seq_shuffle"), kind="flat" if flat else "nested")
+        traces.append(dict(cfg=cfg, calls=list(calls), out=out, rejected=False, how=kind, shuffle=repr(shuffle)))
+    return traces
+
+
+def validate_traces(rep, traces, name="SweepTrace"):
+    """Run SweepTrace.tla over the recorded executions; returns the list of rejected traces."""
+    import json
+    import os
+    d = common.scratch("traces")
+    path = os.path.join(d, "%s-%d.json" % (name, os.getpid()))
+    with open(path, "w") as fh:
+        json.dump([dict(cfg=t["cfg"], calls=t["calls"], out=t["out"], rejected=t["rejected"]) for t in traces], fh)
+    cfgtxt = ("SPECIFICATION TraceSpec\nCONSTANTS\n  Configs = {}\n  MaxPerm = 6\n  DfSettings = \"unshuffled\"\n"
+              "INVARIANT TypeOK\nINVARIANT ExactlyOnce\nINVARIANT Placement\nINVARIANT FlatOrder\nINVARIANT ReportAccepted\n"
+              "CHECK_DEADLOCK FALSE\n")
+    r = tlc.run("SweepTrace", cfgtxt, name=name, workers=1, env={"TRACE_FILE": path})
+    rep.add_tlc("SweepTrace validation of %d recorded executions" % len(traces), r)
+    acc = set()
+    for line in r.out.splitlines():
+        if line.startswith('<<"ACCEPT", '):
+            acc.add(int(line.split(",")[1].strip(" >")))
+    rejected = [(i + 1, t) for i, t in enumerate(traces) if (i + 1) not in acc]
+    return rejected, r
